@@ -1123,10 +1123,9 @@ func rtRunMode(t *testing.T, p rtPlan, strict bool) vk.Result {
 			if m := e2elife.CheckRPCError(o.err); m != "" {
 				reason, _ := rtClassify(p, i, res)
 				if rtWrapsSendEOF(p, i, res, o) {
-					if !strict {
-						classes["excluded_"+rtSigExhaustedEOF] = true
-						continue
-					}
+					// The defect behind this shape was repaired in /repo (9bff983, known_findings.txt "fixed:"):
+					// nothing is stepped over any more, a recurrence is a violation.
+					_ = strict
 					v := vk.Bad("%s returned %s [ended: %s] :: %s", o.op, m, reason, rtDescribe(p, i, res))
 					v.Sig = rtSigExhaustedEOF
 					return v
@@ -1142,6 +1141,9 @@ func rtRunMode(t *testing.T, p rtPlan, strict bool) vk.Result {
 		if rtReasons[reason] {
 			out.NonTrivial = true
 			classes["final_in_"+res.finalOp] = true
+		}
+		if res.final != nil && res.final != io.EOF {
+			classes["failed_in_"+res.finalOp] = true
 		}
 		classes["shape_"+r.Shape] = true
 		classes[fmt.Sprintf("attempts_%d", min(len(res.atts), 6))] = true
